@@ -104,7 +104,8 @@ func (f *formatter) kw(keyword string) string {
 }
 
 func (f *formatter) indentStr() string {
-	if f.opts.IndentWidth == 0 {
+	if f.opts.IndentWidth <= 0 {
+		// a negative width would make strings.Repeat panic
 		return ""
 	}
 	ch := " "
